@@ -1008,6 +1008,23 @@ def _instantiate(helper, kind, call, caller_idents, tag, target=None,
     return pre, body
 
 
+class _SplatFold(ast.NodeTransformer):
+    """f(a, *[b, c]) is f(a, b, c)."""
+    def visit_Call(self, node):
+        self.generic_visit(node)
+        args = []
+        for a in node.args:
+            if isinstance(a, ast.Starred) and \
+                    isinstance(a.value, (ast.List, ast.Tuple)) and \
+                    not any(isinstance(x, ast.Starred)
+                            for x in a.value.elts):
+                args.extend(a.value.elts)
+            else:
+                args.append(a)
+        node.args = args
+        return node
+
+
 class _FoldConstTests(ast.NodeTransformer):
     """What a constant argument decides inside the helper written out:
     `a if True else b`, `None or x`, `if False: ...`."""
@@ -2354,6 +2371,38 @@ class _Desugar(ast.NodeTransformer):
                         env = dict(zip(names, row.elts))
                         for b in st.body:
                             out.append(_Subst(env, {}).visit(_c.deepcopy(b)))
+                    self.count += 1
+                    continue
+            if isinstance(st, ast.For) and not st.orelse and \
+                    isinstance(st.target, ast.Tuple) and st.target.elts and \
+                    isinstance(st.target.elts[-1], ast.Starred) and \
+                    isinstance(st.target.elts[-1].value, ast.Name) and \
+                    all(isinstance(e, ast.Name)
+                        for e in st.target.elts[:-1]) and \
+                    isinstance(st.iter, (ast.Tuple, ast.List)) and \
+                    1 <= len(st.iter.elts) <= 8 and all(
+                        isinstance(row, ast.Tuple) and
+                        len(row.elts) >= len(st.target.elts) - 1 and
+                        all(isinstance(x, ast.Constant) or _simple_arg(x)
+                            for x in row.elts) for row in st.iter.elts):
+                # for cmd, *args in (('a %s', x), ('b',)): body  -- a table
+                # of rows of unequal length
+                names = [e.id for e in st.target.elts[:-1]]
+                rest = st.target.elts[-1].value.id
+                body_stores = {n.id for b in st.body for n in ast.walk(b)
+                               if isinstance(n, ast.Name) and
+                               isinstance(n.ctx, (ast.Store, ast.Del))}
+                if not ((set(names) | {rest}) & body_stores) and not any(
+                        isinstance(n, (ast.Break, ast.Continue))
+                        for b in st.body for n in ast.walk(b)):
+                    import copy as _c
+                    for row in st.iter.elts:
+                        env = dict(zip(names, row.elts))
+                        env[rest] = ast.List(
+                            elts=list(row.elts[len(names):]), ctx=ast.Load())
+                        for b in st.body:
+                            out.append(_SplatFold().visit(
+                                _Subst(env, {}).visit(_c.deepcopy(b))))
                     self.count += 1
                     continue
             if isinstance(st, ast.For) and not st.orelse and \
